@@ -33,8 +33,13 @@ def sets_case(gen_name):
     @st.composite
     def strat(draw):
         min_r, min_p = MIN_GROUPS.get(gen_name, (1, 1))
-        spec = draw(S.stack(n_rdm=(max(1, min_r), 8), n_cond=(3, 10), min_rdm_groups=min_r,
-                            min_pat_groups=min_p, allow_nan=False))
+        if draw(st.integers(0, 7)) == 0:
+            # many RDMs (e.g. 20 subjects x 2 sessions) over few conditions: 'all numbers of RDMs'
+            spec = draw(S.stack(n_rdm=(20, 44), n_cond=(3, 4), min_rdm_groups=min_r,
+                                min_pat_groups=min_p, allow_nan=False))
+        else:
+            spec = draw(S.stack(n_rdm=(max(1, min_r), 8), n_cond=(3, 10), min_rdm_groups=min_r,
+                                min_pat_groups=min_p, allow_nan=False))
         if draw(st.booleans()):
             # input that is itself a bootstrap sample: copies of a condition -> NaN between them
             spec['copies'] = True
